@@ -106,6 +106,11 @@ inductive Ev
   | body (id k : Nat)                 -- k-th invocation of the body of phase `id`
   | runIf (id k : Nat)
   | diag (id k j : Nat)               -- j-th diagnoser of the k-th invocation
+  | plugCtor (c : Nat)                -- plug class c constructed
+  | plugCtorFailed (c : Nat)          -- constructor of plug class c raised
+  | plugTearDown (c : Nat)            -- tearDown of the instance of class c called
+  | testDiag (j : Nat)                -- j-th test diagnoser run
+  | callback (j : Nat)                -- j-th output callback called
 deriving DecidableEq, Repr
 
 structure St where
